@@ -4,4 +4,14 @@ namespace Dds.Facts
 /-- default of the option `hash.max_sequence_size` -/
 def maxSequenceSizeDefault : Nat := 10000
 
+/-- `ProcessingStage.all_phases()`: names, in order -/
+def stageOrder : List String := ["ANALYSIS", "STORE_INSPECT", "EVAL", "STORE_COMMIT", "PATH_COMMIT"]
+/-- the enum values, in the same order -/
+def stageValues : List String := ["analysis", "store_inspect", "eval", "store_commit", "path_commit"]
+/-- all members of the enum -/
+def stageMembers : List String := ["ANALYSIS", "STORE_INSPECT", "EVAL", "STORE_COMMIT", "PATH_COMMIT"]
+
+/-- `DDSErrorCode`: (name, value) -/
+def errorCodes : List (String × Nat) := [("EVAL_IN_EVAL", 1), ("CIRCULAR_CALL", 2), ("UNKNOWN_AST_NODE", 3), ("MODULE_NOT_FOUND", 4), ("FUNCTION_NO_MODULE", 5), ("PROTOCOL_NOT_FOUND", 6), ("TYPE_NOT_SUPPORTED", 7), ("STORE_PATH_NOT_FOUND", 8), ("PATH_NOT_ABSOLUTE", 9), ("UNSUPPORTED_CALLABLE_TYPE", 10), ("AUTHORIZED_TYPE_NOT_UNDERSTOOD", 11), ("OBJECT_PATH_NOT_FOUND", 12), ("CONSTRUCT_NOT_SUPPORTED", 13), ("STORE_PATH_NOT_SUPPORTED", 14), ("ARG_IN_DATA_FUNCTION", 15), ("OVERLAPPING_PATH", 16), ("UNKNOWN_OPTION", 17), ("SEQUENCE_TOO_LONG", 18)]
+
 end Dds.Facts
